@@ -276,3 +276,14 @@ Definition clock_alive (t : thr) : bool :=
   | R0 _ | R1 _ | R2 _ | R3 _ _ | R4 _ | R5 _ | R6 _ _ | R7 _ | R8 _ => true
   | _ => false
   end.
+
+(* no makeDeadline call is in progress *)
+Definition quiet (s : st) : bool := forallb (fun t => negb (inflight t)) (ths s).
+
+(* real time after which a quiet system has no reason to keep the clock goroutine:
+   the later of "now" and the real time at which ticks exceed clockEnd *)
+Definition horizon (s : st) : Z :=
+  match start (gs s) with
+  | Some s0 => Z.max (now (gs s)) (real_of s0 (Z.max 0 (cend (gs s))))
+  | None => now (gs s)
+  end.
